@@ -38,6 +38,8 @@ def instances(tier, seed):
     for nmol, nph, scheme, periodic in itertools.product((2, 3), (1, 2) if tier == "thorough" else (1,), (1, 2, 3, 4), (False, True)):
         if periodic and nmol < 3:
             continue
+        if nmol == 3 and nph == 2:
+            continue      # 3 electronic + 6 vibrational sites: a 512-dimensional dense space with symbolic entries is beyond the time budget (outside the bound)
         out.append(dict(op="holstein", nmol=nmol, nph=nph, scheme=scheme, periodic=periodic,
                         label="holstein nmol=%d nph=%d scheme=%d periodic=%s" % (nmol, nph, scheme, periodic), key="holstein"))
     # an explicit, NON-symmetric coupling matrix (every pair coupled): J_ij a+_i a_j, not J_ji
